@@ -94,19 +94,20 @@ def run(ck):
         Xv = torch.tensor(rr.standard_normal((15, d)), dtype=dtype)
         Yv = torch.tensor(rr.standard_normal((15, nout)), dtype=dtype)
         desc = dict(i=i, kernel=kern, solver=solver, dtype=str(dtype), diag=diag, bw=bwmode, iters=iters, early=early, rb=rb, lam=lam, n=n, d=d,
-                    nout=nout, exponent=exponent, seed=ck.seed)
+                    nout=nout, exponent=exponent, agop_best=bool((i // 5) % 2), seed=ck.seed)
         xr.seed_all(2200 + i + ck.seed)
         m = xr.RealRFM(kernel=kern, iters=iters, bandwidth=2.0, exponent=exponent, bandwidth_mode=bwmode, device='cpu', diag=diag,
                        verbose=False, tuning_metric='mse', **extra)
         log = []
         try:
             with solver_log(log), xr.quiet():
+                # every other fit also asks for the AGOP of the selected model (a read-only fit_M after the restore, as xRFM does for its leaves)
                 m.fit((X, Y), (Xv, Yv), iters=iters, reg=lam, solver=solver, return_best_params=rb, early_stop_rfm=early,
-                      early_stop_multiplier=1.05, verbose=False)
+                      early_stop_multiplier=1.05, verbose=False, **(dict(get_agop_best_model=True) if (i // 5) % 2 else {}))
         except Exception as e:
             ck.violation(f'leaf fit raised {e!r} on {desc}', dict(desc, error=repr(e)), key=json.dumps(dict(site='fit-raise', kernel=kern, solver=solver)))
             continue
-        ck.count(f'kernel={kern}'); ck.count(f'solver={solver}'); ck.count(f'{dtype}'); ck.count(f'bw={bwmode}'); ck.count(f'best_iter={m.best_iter}')
+        ck.count(f'kernel={kern}'); ck.count(f'solver={solver}'); ck.count(f'{dtype}'); ck.count(f'bw={bwmode}'); ck.count(f'best_iter={m.best_iter}'); ck.count(f'get_agop_best_model={bool((i // 5) % 2)}')
         with xr.quiet():
             K = m.kernel(m.centers, m.centers).double()
             P = m.predict(m.centers).double()
